@@ -167,15 +167,15 @@ theorem formulaL_iterm_text : ∀ (T : ITerm), ITerm.Safe T → ∀ (X : List Ch
     · simp only [atomicL, h1, h2, hcmp, atomL_none_of_symConst _ (lexSymConst_none_of_head c _ hl.1 hl.2.1)]
   | fc c =>
     intro hT X hcmp f
-    have hw : ITerm.WF (.fc c) := hT.1
+    have hw : ITerm.WF (.fc c) := hT
     obtain ⟨h1, h2⟩ := hash_words_none (.int (.fc c)) hw X
     simp only [GTerm.printL] at h1 h2
     have hs := skip_of_startsSolid ((ITerm.printL_startsSolid _ hw).append X)
     have hp := prefixL_iterm (.fc c) hT X
-    have hparen := name_not_paren (SymName.all_id hT.1) (SymName.ne_nil hT.1) ('$' :: 'i' :: X)
+    have hparen := name_not_paren (SymName.all_id hT) (SymName.ne_nil hT) ('$' :: 'i' :: X)
     simp only [ITerm.printL, List.append_assoc, List.cons_append, List.nil_append] at h1 h2 hs hp hcmp ⊢
     have hat : atomL (c.toList ++ '$' :: 'i' :: X) = some (⟨c, []⟩, '$' :: 'i' :: X) := by
-      simp only [atomL, lexSymConst_append c.toList ('$' :: 'i' :: X) hT.1 ⟨'$', _, rfl, by decide⟩,
+      simp only [atomL, lexSymConst_append c.toList ('$' :: 'i' :: X) hT ⟨'$', _, rfl, by decide⟩,
         String.ofList_toList, skip_cons_solid ('i' :: X) (show Solid '$' from ⟨by decide, by decide⟩)]
       rfl
     have hatomic : atomicL (c.toList ++ '$' :: 'i' :: X) = some (.atom ⟨c, []⟩, '$' :: 'i' :: X) := by
@@ -274,7 +274,7 @@ theorem iterm_paren_decomp : ∀ (T : ITerm), ITerm.Safe T → ∀ (G r1 : List 
     rcases hc with hc | hc <;> (rw [e.1] at hc; exact absurd hc (by decide))
   | fc c => intro hT G r1 e; exact absurd e (by
       simp only [ITerm.printL, List.append_assoc]
-      exact name_not_paren (SymName.all_id hT.1) (SymName.ne_nil hT.1) _ r1)
+      exact name_not_paren (SymName.all_id hT) (SymName.ne_nil hT) _ r1)
   | var v => intro hT G r1 e; exact absurd e (by
       simp only [ITerm.printL, List.append_assoc]
       exact name_not_paren (UVName.all_id hT) (UVName.ne_nil hT) _ r1)
@@ -414,7 +414,7 @@ theorem qword_length (q : Quant) : (qwordL q).length = 6 := by cases q <;> rfl
 
 /-- `prefix*` on the text of a formula that is not a binary one reads exactly the chain -/
 theorem prefixes_printL : ∀ (F : Formula), parenPrefix F = false → Formula.Safe F → ∀ (rest : List Char), NoId rest →
-    ∀ (first : Bool) (cs : List Char) (n : Nat),
+    lexVariable (skip rest) = none → ∀ (first : Bool) (cs : List Char) (n : Nat),
       (if first then cs else skip cs) = Formula.printL F ++ rest → (Formula.printL F ++ rest).length ≤ cs.length →
       cs.length < n →
       ∃ cs', prefixesL n first cs = (chain F, cs') ∧
@@ -422,15 +422,15 @@ theorem prefixes_printL : ∀ (F : Formula), parenPrefix F = false → Formula.S
   intro F
   induction F with
   | atomic a =>
-    intro _ hF rest hr first cs n hcs _ _
-    have hp := prefixL_atomic a hF rest hr
+    intro _ hF rest hr hv first cs n hcs _ _
+    have hp := prefixL_atomic a hF rest hr hv
     refine ⟨cs, prefixesL_none n first cs (by rw [hcs]; exact hp), ?_, Nat.le_refl _⟩
     have hsol := skip_of_startsSolid ((AtomicF.printL_startsSolid a hF).append rest)
     cases first with
     | true => simp only [if_true] at hcs; rw [hcs]; exact hsol
     | false => simpa [core, parenLL] using hcs
   | not g ih =>
-    intro _ hF rest hr first cs n hcs hlen hn
+    intro _ hF rest hr hv first cs n hcs hlen hn
     cases n with
     | zero => omega
     | succ n0 =>
@@ -458,7 +458,7 @@ theorem prefixes_printL : ∀ (F : Formula), parenPrefix F = false → Formula.S
           simp [hp', parenLL]
         rw [e] at hstep hlen
         have hsol := skip_of_startsSolid ((Formula.printL_startsSolid g hF).append rest)
-        obtain ⟨cs', h1, h2, h3⟩ := ih hp' hF rest hr false (' ' :: (Formula.printL g ++ rest)) n0
+        obtain ⟨cs', h1, h2, h3⟩ := ih hp' hF rest hr hv false (' ' :: (Formula.printL g ++ rest)) n0
           (by simp only [Bool.false_eq_true, if_false, skip_space]; exact hsol)
           (by simp only [List.length_cons]; omega) (by simp only [List.length_cons]; omega)
         refine ⟨cs', ?_, ?_, ?_⟩
@@ -466,7 +466,7 @@ theorem prefixes_printL : ∀ (F : Formula), parenPrefix F = false → Formula.S
         · simpa only [core, hp', Bool.false_eq_true, if_false] using h2
         · simp only [List.length_cons] at h3; omega
   | quant q vs g ih =>
-    intro _ hF rest hr first cs n hcs hlen hn
+    intro _ hF rest hr hv first cs n hcs hlen hn
     cases n with
     | zero => omega
     | succ n0 =>
@@ -500,7 +500,7 @@ theorem prefixes_printL : ∀ (F : Formula), parenPrefix F = false → Formula.S
         have hB : lexVariable (skip (' ' :: (Formula.printL g ++ rest))) = none := by
           rw [skip_space, hsol]; exact body_no_variable g hF.2.2 hq' rest
         have hstep := prefixesL_succ_some n0 first cs _ _ (by rw [hcs]; exact prefixL_quant q vs hF.1 hF.2.1 _ hB)
-        obtain ⟨cs', h1, h2, h3⟩ := ih (parenPrefix_of_quantBody hq') hF.2.2 rest hr false (' ' :: (Formula.printL g ++ rest)) n0
+        obtain ⟨cs', h1, h2, h3⟩ := ih (parenPrefix_of_quantBody hq') hF.2.2 rest hr hv false (' ' :: (Formula.printL g ++ rest)) n0
           (by simp only [Bool.false_eq_true, if_false, skip_space]; exact hsol)
           (by simp only [List.length_cons]; omega) (by simp only [List.length_cons, List.length_append]; omega)
         refine ⟨cs', ?_, ?_, ?_⟩
@@ -618,7 +618,7 @@ theorem atomic_paren_notclosed (a : AtomicF) (ha : AtomicF.Safe a) (rest r1 : Li
     | fc c =>
       simp only [GTerm.printL, List.append_assoc] at e
       exact absurd e (name_not_paren (SymName.all_id ha.1.1) (SymName.ne_nil ha.1.1) _ r1)
-    | var v => exact absurd e (name_not_paren (UVName.all_id ha.1) (UVName.ne_nil ha.1) _ r1)
+    | var v => exact absurd e (name_not_paren (UVName.all_id ha.1.1) (UVName.ne_nil ha.1.1) _ r1)
     | symb s =>
       cases s with
       | sym s => exact absurd e (name_not_paren (SymName.all_id ha.1.1) (SymName.ne_nil ha.1.1) _ r1)
@@ -627,10 +627,10 @@ theorem atomic_paren_notclosed (a : AtomicF) (ha : AtomicF.Safe a) (rest r1 : Li
         exact absurd e (name_not_paren (SymName.all_id ha.1.1) (SymName.ne_nil ha.1.1) _ r1)
       | var v =>
         simp only [GTerm.printL, STerm.printL, List.append_assoc] at e
-        exact absurd e (name_not_paren (UVName.all_id ha.1) (UVName.ne_nil ha.1) _ r1)
+        exact absurd e (name_not_paren (UVName.all_id ha.1.1) (UVName.ne_nil ha.1.1) _ r1)
     | int it =>
       intro f
-      obtain ⟨l1, Z, hl1, rfl⟩ := iterm_paren_decomp it ha.1 _ r1 e
+      obtain ⟨l1, Z, hl1, rfl⟩ := iterm_paren_decomp it ha.1.1 _ r1 e
       rw [skip_of_startsSolid ((ITerm.printL_startsSolid l1 (ITerm.Safe.wf hl1)).append _)]
       exact formulaL_iterm_text l1 hl1 (')' :: Z) (comparisonL_before_close l1 (ITerm.Safe.wf hl1) Z) f
 
@@ -639,7 +639,7 @@ theorem atomic_paren_notclosed (a : AtomicF) (ha : AtomicF.Safe a) (rest r1 : Li
 theorem fseq_prefix_type (F : Formula) (hpp : parenPrefix F = false) (hF : Formula.Safe F)
     (ihc : (core F).1 = true → FSeqOK (core F).2) : FSeqOK F := by
   intro rest toks' r' hr htail f hf
-  obtain ⟨cs', h1, h2, h3⟩ := prefixes_printL F hpp hF rest hr.1.1.noId true (Formula.printL F ++ rest)
+  obtain ⟨cs', h1, h2, h3⟩ := prefixes_printL F hpp hF rest hr.1.1.noId hr.2.2.2 true (Formula.printL F ++ rest)
     ((Formula.printL F ++ rest).length + 1) rfl (Nat.le_refl _) (Nat.lt_succ_self _)
   have hG := core_safe F hF
   have hsk := skip_length_le cs'
